@@ -78,14 +78,17 @@ def check(ctx) -> Result:
     tp = src(pr.node).replace(" ", "")
     lc = [l for l in walk_no_nested(pr.node) if isinstance(l, ast.ListComp) and "self._create_circuit" in src(l.elt)]
     ok1 = bool(lc) and src(lc[0].generators[0].iter) == "req_measurements" and not lc[0].generators[0].ifs and "MEASUREMENT_MAPPING[g]forgingates.split(',')" in src(lc[0].elt).replace(" ", "")
-    res.add(ok1, "I-one-circuit-per-setting", "StateTomography.process", pr.site(), pr.qualname, "one circuit per required measurement setting, operators in string order", "circuits are not created one per required setting from MEASUREMENT_MAPPING in string order", construct=src(lc[0])[:120] if lc else "")
-    res.add("results_dict[result_mapping[c]]" in tp and "zip(req_measurements,all_results,strict=True)" in tp and "forcin_get_tomo_measurements(self.n_qubits)" in tp, "K-i-to-z-reuse", "StateTomography.process", pr.site(), pr.qualname,
+    res.frozen(ok1, "I-one-circuit-per-setting", "StateTomography.process", pr.site(), pr.qualname, "one circuit per required measurement setting, operators in string order", "circuits are not created one per required setting from MEASUREMENT_MAPPING in string order", construct=src(lc[0])[:120] if lc else "")
+    res.frozen("results_dict[result_mapping[c]]" in tp and "zip(req_measurements,all_results,strict=True)" in tp and "forcin_get_tomo_measurements(self.n_qubits)" in tp, "K-i-to-z-reuse", "StateTomography.process", pr.site(), pr.qualname,
             "results are paired with their settings in order and looked up through the reuse map for every setting", "results are not looked up through the I->Z reuse map for every full setting", construct="lookup")
     cc = STc.methods["_create_circuit"]
     tcc = src(cc.node).replace(" ", "")
     okc = "circuit=self.base_circuit.copy()" in tcc and "fori,opinenumerate(measurement_operators):" in tcc and "circuit.add(op,2*i)" in tcc
     rets = [r for r in walk_no_nested(cc.node) if isinstance(r, ast.Return)]
-    res.add(okc and bool(rets) and src(rets[-1].value) == "circuit", "I-one-circuit-per-setting", "StateTomography._create_circuit", cc.site(), cc.qualname, "copy of the base circuit followed by add(op, 2*i) for the i-th operator", "measurement circuit is not base.copy() followed by add(op_i, 2*i)", construct="create")
+    res.frozen(okc and bool(rets) and src(rets[-1].value) == "circuit", "I-one-circuit-per-setting", "StateTomography._create_circuit", cc.site(), cc.qualname, "copy of the base circuit followed by add(op, 2*i) for the i-th operator", "measurement circuit is not base.copy() followed by add(op_i, 2*i)", construct="create")
+    # nothing is carried over between process() calls (circuits and results are built from the *current* base circuit)
+    from ..rules import rf_cache
+    rf_cache.f3_result_fields(ctx, res, STc, pr)
     n = rc_owner.c1_fields(ctx, res, [STc])
     res.floor("held base circuit", n, 1)
     # Pauli expansion order
@@ -93,7 +96,9 @@ def check(ctx) -> Result:
     kr = [c for c in walk_no_nested(dm.node) if isinstance(c, ast.Call) and src(c.func).endswith("kron")]
     okk = len(kr) == 1 and src(kr[0].args[0]) == "mat" and src(kr[0].args[1]) == "PAULI_MAPPING[g]"
     td = src(dm.node).replace(" ", "")
-    res.add(okk and "mat=PAULI_MAPPING[ops[0]]" in td and "forginops[1:]" in td and "ops=measurement.split(',')" in td, "K-pauli-expansion-order", "_calculate_density_matrix", dm.site(), dm.qualname,
+    if len(kr) == 1 and src(kr[0].args[1]) == "mat" and "PAULI_MAPPING" in src(kr[0].args[0]):
+        res.bad("K-pauli-expansion-order", "_calculate_density_matrix", dm.site(kr[0]), dm.qualname, "Kronecker factors of the Pauli expansion are accumulated in reverse order (last qubit leftmost) while the expectation value reads qubit j from modes (2j, 2j+1)", construct=src(kr[0]))
+    res.frozen(okk and "mat=PAULI_MAPPING[ops[0]]" in td and "forginops[1:]" in td and "ops=measurement.split(',')" in td, "K-pauli-expansion-order", "_calculate_density_matrix", dm.site(), dm.qualname,
             "tensor factors follow the order of the measurement string (qubit 0 leftmost)", "Kronecker factors of the Pauli expansion are not in measurement-string order", construct=src(kr[0]) if kr else "")
-    res.add("expectation/=2**n_qubits" in td and "rho+=expectation*mat" in td, "K-pauli-expansion-order", "_calculate_density_matrix:weights", dm.site(), dm.qualname, "rho = sum <P> P / 2^n", "Pauli expansion weights changed", construct="weights")
+    res.frozen("expectation/=2**n_qubits" in td and "rho+=expectation*mat" in td, "K-pauli-expansion-order", "_calculate_density_matrix:weights", dm.site(), dm.qualname, "rho = sum <P> P / 2^n", "Pauli expansion weights changed", construct="weights")
     return res
